@@ -365,7 +365,7 @@ pub fn run(thorough: bool, seed: u64, driver: &str, rep: &mut Report) {
                 let mut t = random_shape(&mut rng, size);
                 let mode = *rng.pick(&[LenMode::All, LenMode::All, LenMode::Mixed, LenMode::None]);
                 let rl = rng.chance(1, 3); label(&mut rng, &mut t, &LabelOpts { len_mode: mode, comments_pct: 10, root_len: rl, ..Default::default() });
-                let how = *rng.pick(&["api", "bfs", "tomb", "parse", "merge2", "grown", "bottomup"]);
+                let how = *rng.pick(&["api", "bfs", "tomb", "tomb2", "parse", "merge2", "grown", "bottomup"]);
                 if how == "merge2" {
                     while t.kids.len() > 2 {
                         t.kids.pop();
